@@ -909,3 +909,48 @@ pub fn gen_reorder(t: &mut Tape) -> Scenario {
 fn gen_bm_of(k: usize) -> Bm {
     [Bm::Default, Bm::Single, Bm::Fixed(4), Bm::Adaptive(3, 1000), Bm::Adaptive(100, 5000)][k % 5]
 }
+
+/// C01/C04, targeted: iterate loops whose body has no repartition, fed with many small batches
+/// (more batches per round than the feedback channel holds), several rounds
+pub fn gen_iter_heavy(t: &mut Tape) -> Scenario {
+    let mut p = Profile::pipe();
+    p.family = "iterate-heavy";
+    let mut g = Gen::new(t, p);
+    let n = [40usize, 120, 400, 900][g.t.draw(4) as usize];
+    let par = g.t.draw(3) != 0;
+    let mut s = g.add_source(par, n, 9);
+    if g.t.draw(2) == 1 {
+        s = g.un(s, UnOp::Shuffle);
+    }
+    let s = g.unlimited(s);
+    let mut body = vec![];
+    let mut cur = 0;
+    for _ in 0..1 + g.t.draw(3) {
+        let op = match g.t.draw(4) {
+            0 | 1 => UnOp::Map(MapFn::Add(1)),
+            2 => UnOp::Filter(PredFn::True),
+            _ => UnOp::KeyByDrop,
+        };
+        body.push(Step::Un(cur, op));
+        cur += 1;
+    }
+    let spec = LoopSpec {
+        iterate: true,
+        rounds: 2 + g.t.draw(3) as usize,
+        stop_mod: 0,
+        stop_rem: 0,
+        agg: [AggFn::Sum, AggFn::Count, AggFn::Xor][g.t.draw(3) as usize],
+        body,
+        body_out: cur,
+        use_state: g.t.draw(2) == 1,
+        cond_sleep_us: [0u64, 0, 300][g.t.draw(3) as usize],
+    };
+    let a = g.attrs[s].take().unwrap();
+    g.steps.push(Step::Loop(s, spec));
+    g.attrs.push(Some(Attr { repl: Repl::One, depth: a.depth, len: 1, keys: 1 }));
+    g.attrs.push(Some(Attr { repl: Repl::Unlimited, depth: a.depth, len: a.len, keys: a.keys }));
+    let k = g.t.draw(4);
+    let mut sc = g.finish();
+    sc.bm = [Bm::Single, Bm::Fixed(1), Bm::Fixed(2), Bm::Fixed(5)][k as usize];
+    sc
+}
